@@ -311,7 +311,12 @@ func (c consumption) apply(b buffer.Buffer) ([]byte, error) {
 const hangLimit = 60 * time.Second
 
 // guard runs one client operation and fails the case if it never returns.
-func guard(t *rapid.T, what string, f func()) {
+// fataler is what *rapid.T and *testing.T have in common here.
+type fataler interface {
+	Fatalf(format string, args ...any)
+}
+
+func guard(t fataler, what string, f func()) {
 	done := make(chan struct{})
 	go func() {
 		defer close(done)
@@ -341,45 +346,6 @@ type b2bObject struct {
 
 var recB2B = vstats.New("TestC14BackToBack")
 
-// keys of the findings in the compressed paths of the CAS client
-const (
-	f8Key  = "zstd-client-put-finishes-after-source-error"
-	f9Key  = "zstd-client-put-eof-instead-of-status"
-	f10Key = "zstd-client-get-close-deadlock"
-)
-
-// stopsEarly: the consumption releases the buffer before its end.
-func (c consumption) stopsEarly(size int) bool {
-	return c.method == "Discard" || c.method == "ReadAt" || c.limit >= 0 || c.badArgument(size)
-}
-
-// probeF10 looks for the listed deadlock: discarding a compressed
-// download. It reports whether a goroutine was left behind.
-func probeF10(s *b2bServer, uuids func() (uuid.UUID, error)) bool {
-	data := expand(1, 3000, 3)
-	d := mkDigest("", fnSHA256, data)
-	mem := backends.NewMem("cas", digest.KeyWithoutInstance)
-	mem.Set(d, data)
-	s.cas.set(mem)
-	client := grpcclients.NewCASBlobAccess(s.conn, uuids, 100, pools()[0])
-	for i := 0; i < 300; i++ {
-		done := make(chan struct{})
-		go func() {
-			defer close(done)
-			client.Get(context.Background(), d).Discard()
-		}()
-		select {
-		case <-done:
-		case <-time.After(5 * time.Second):
-			what := fmt.Sprintf("Discard() of a compressed Get buffer did not return (attempt %d): Close() and the download goroutine both call Recv() on the stream", i)
-			recB2B.KnownFinding(f10Key, what)
-			fmt.Printf("KNOWN-FINDING: property=C14 key=%s %s\n", f10Key, what)
-			return true
-		}
-	}
-	return false
-}
-
 // TestC14BackToBack: the repository's CAS/AC clients against its servers
 // over an in-memory connection, compared with the bare back end.
 func TestC14BackToBack(t *testing.T) {
@@ -391,14 +357,6 @@ func TestC14BackToBack(t *testing.T) {
 	}
 	ctx := context.Background()
 	uuids := uuidCounter()
-	f8known := vstats.KnownListed("C14", f8Key)
-	f9known := vstats.KnownListed("C14", f9Key)
-	f10known := vstats.KnownListed("C14", f10Key)
-	leakedByProbe := false
-	if f10known {
-		leakedByProbe = probeF10(servers[0], uuids)
-	}
-	f8printed, f9printed := false, false
 
 	rapid.Check(t, func(t *rapid.T) {
 		vc := recB2B.Begin()
@@ -411,6 +369,7 @@ func TestC14BackToBack(t *testing.T) {
 		acBack := backends.NewMem("ac", digest.KeyWithInstance)
 		s.ac.set(acMem{acBack})
 		acModel := map[string]*remoteexecution.ActionResult{}
+		var acPut []int
 
 		clientChunk := rapid.SampledFrom([]int{1 << 16, 100, 7, 1}).Draw(t, "client_chunk")
 		clientZstd := rapid.Bool().Draw(t, "client_zstd")
@@ -471,7 +430,7 @@ func TestC14BackToBack(t *testing.T) {
 			vc.Add(kind, oi)
 			switch kind {
 			case "put":
-				pk := rapid.SampledFrom([]string{"good_slice", "good_reader", "good_unvalidated", "wrong_unvalidated", "wrong_reader", "reader_fails"}).Draw(t, "putkind")
+				pk := rapid.SampledFrom([]string{"good_slice", "good_reader", "good_unvalidated", "wrong_unvalidated", "wrong_reader", "reader_fails", "wrong_oversized"}).Draw(t, "putkind")
 				wrong := append([]byte(nil), o.data...)
 				switch rapid.IntRange(0, 2).Draw(t, "wrongkind") {
 				case 0:
@@ -505,6 +464,12 @@ func TestC14BackToBack(t *testing.T) {
 					// the client cannot notice: the server has to
 					b = buffer.NewValidatedBufferFromByteSlice(wrong)
 					wantCode = codes.InvalidArgument
+				case "wrong_oversized":
+					// far more (incompressible) data than the digest announces:
+					// the server refuses while the client is still sending
+					wrong = append(append([]byte(nil), o.data...), expand(uint64(len(o.data)), 300000, 0)...)
+					b = buffer.NewValidatedBufferFromByteSlice(wrong)
+					wantCode = codes.InvalidArgument
 				case "wrong_reader":
 					src = hx.NewCRC(wrong)
 					b = buffer.NewCASBufferFromReader(o.d, src, buffer.UserProvided)
@@ -516,7 +481,7 @@ func TestC14BackToBack(t *testing.T) {
 					b = buffer.NewCASBufferFromReader(o.d, src, buffer.UserProvided)
 					wantCode = codes.Unavailable
 				}
-				vc.Add(pk, wrong)
+				vc.Add(pk, len(wrong), short(wrong))
 				var err error
 				guard(t, fmt.Sprintf("Put(%s,%s) via server %s (zstd %v)", o.d, pk, s.name, compressed), func() { err = client.Put(ctx, o.d, b) })
 				rendered = append(rendered, fmt.Sprintf("put(#%d,%s)->%s", oi, pk, codeOf(err)))
@@ -530,26 +495,9 @@ func TestC14BackToBack(t *testing.T) {
 					if err == nil {
 						t.Fatalf("Put (%s) of %s for digest %s succeeded through the client (server %s, zstd %v)", pk, short(wrong), o.d, s.name, compressed)
 					}
-					if err == io.EOF && compressed && f9known {
-						// listed finding: Send()'s io.EOF reported instead of the server's status
-						if !f9printed {
-							f9printed = true
-							fmt.Printf("KNOWN-FINDING: property=C14 key=%s compressed Put (%s) rejected by the server returned io.EOF instead of the status\n", f9Key, pk)
-						}
-						recB2B.Excluded(f9Key)
-					} else if _, isStatus := status.FromError(err); !isStatus || status.Code(err) != wantCode {
+					if _, isStatus := status.FromError(err); !isStatus || status.Code(err) != wantCode {
 						t.Fatalf("Put (%s) for digest %s (sent %d bytes) failed with %v (%s), want %s (server %s chunk %d, client chunk %d, zstd %v)",
 							pk, o.d, len(wrong), err, codeOf(err), wantCode, s.name, s.chunk, clientChunk, compressed)
-					}
-					if b, ok := mem.Peek(o.d); ok && !ref.Has(o.d) && bytes.Equal(b, o.data) && compressed && f8known && (pk == "wrong_reader" || pk == "reader_fails") {
-						// listed finding: the failed compressed upload was
-						// finished and the truncated payload is the object
-						if !f8printed {
-							f8printed = true
-							fmt.Printf("KNOWN-FINDING: property=C14 key=%s failed compressed Put (%s) of %s left the object in the back end\n", f8Key, pk, o.d)
-						}
-						recB2B.Excluded(f8Key)
-						ref.Set(o.d, o.data)
 					}
 					mixedOutcomes["put_rejected"] = true
 					vc.Class("put_rejected_" + pk)
@@ -573,10 +521,6 @@ func TestC14BackToBack(t *testing.T) {
 				vc.Class("corrupt")
 			case "get":
 				cm := genConsumption(t, len(o.data))
-				if f10known && compressed && cm.stopsEarly(len(o.data)) {
-					recB2B.Excluded(f10Key)
-					cm = consumption{method: "IntoWriter", limit: -1}
-				}
 				vc.Add(cm.String())
 				var got []byte
 				var gerr error
@@ -645,9 +589,15 @@ func TestC14BackToBack(t *testing.T) {
 				}
 				vc.Class("find")
 			case "ac":
+				doPut := len(acPut) == 0 || rapid.IntRange(0, 2).Draw(t, "ac_put") == 0
+				if !doPut && rapid.IntRange(0, 3).Draw(t, "ac_get_known") > 0 {
+					oi = rapid.SampledFrom(acPut).Draw(t, "ac_known")
+					o = objs[oi]
+				}
 				ad := mkDigest(o.inst, o.fn, []byte(fmt.Sprintf("action-%d", oi)))
 				key := ad.GetKey(digest.KeyWithInstance)
-				if len(acModel) == 0 || rapid.IntRange(0, 2).Draw(t, "ac_put") == 0 {
+				if doPut {
+					acPut = append(acPut, oi)
 					res := genActionResult(t, fmt.Sprintf("b2b%d", op))
 					vc.Add(res.String())
 					if err := acClient.Put(ctx, ad, buffer.NewProtoBufferFromProto(res, buffer.UserProvided)); err != nil {
@@ -700,7 +650,7 @@ func TestC14BackToBack(t *testing.T) {
 	for runtime.NumGoroutine() > baseline+2 && time.Now().Before(deadline) {
 		time.Sleep(10 * time.Millisecond)
 	}
-	if n := runtime.NumGoroutine(); n > baseline+2 && !leakedByProbe {
+	if n := runtime.NumGoroutine(); n > baseline+2 {
 		buf := make([]byte, 1<<16)
 		buf = buf[:runtime.Stack(buf, true)]
 		t.Fatalf("%d goroutines are still running after closing clients and servers (%d before the test):\n%s", n, baseline, buf)
